@@ -219,7 +219,8 @@ class Scheduler(BaseScheduler[Job, Callable[..., None]]):
         for job in jobs:
             job._calc_next_exec(ref_dt)  # pylint: disable=protected-access
             if not job.has_attempts_remaining:
-                self.delete_job(job)
+                with self.__jobs_lock:
+                    self.__jobs.discard(job)
 
         return n_jobs
 
